@@ -2,7 +2,7 @@ import SigpyVerif.Model.Py
 import SigpyVerif.Model.Proto
 import SigpyVerif.Model.C19
 namespace SigpyVerif.Drv.C19
-open SigpyVerif SigpyVerif.Proto SigpyVerif.C19
+open SigpyVerif SigpyVerif.Proto SigpyVerif.C19 SigpyVerif.Gen.Sim
 
 def toG (z : Rat × Rat) : GRat := ⟨z.1, z.2⟩
 def fmtG (z : GRat) : String := s!"{fmtRat z.re};{fmtRat z.im}"
@@ -17,9 +17,20 @@ def pairs : List GRat → Option (List (GRat × GRat))
   | [] => some []
   | x :: y :: t => (pairs t).map ((x, y) :: ·)
   | _ => none
-def triples : List GRat → Option (List (GRat × GRat × GRat))
+/-- per-sample atoms, flat: `C S nx ny nz` (abrm, abrm_nd) -/
+def ckAtoms : List GRat → Option (List (CkAtoms GRat))
   | [] => some []
-  | x :: y :: z :: t => (triples t).map ((x, y, z) :: ·)
+  | c :: s :: nx :: ny :: nz :: t => (ckAtoms t).map (⟨c, s, nx, ny, nz⟩ :: ·)
+  | _ => none
+/-- `C S u z` (abrm_hp, blochsim) -/
+def hpAtoms : List GRat → Option (List (HpAtoms GRat))
+  | [] => some []
+  | c :: s :: u :: z :: t => (hpAtoms t).map (⟨c, s, u, z⟩ :: ·)
+  | _ => none
+/-- `C S nz nxy` (abrm_ptx) -/
+def ptxAtoms : List GRat → Option (List (PtxAtoms GRat))
+  | [] => some []
+  | c :: s :: nz :: nxy :: t => (ptxAtoms t).map (⟨c, s, nz, nxy⟩ :: ·)
   | _ => none
 
 /-- hints of ab2rf: `cj > 0` real and `cj²·(|a[ii]|² + |b[ii]|²) = |a[ii]|²`, along the model's own recursion -/
@@ -36,7 +47,8 @@ def hintsOk : List GRat → List GRat → List GRat → Nat → Bool
       else false
     | _, _ => false
 
-/-- protocol handler for property C19 (tokens after the property id). -/
+/-- protocol handler for property C19 (tokens after the property id).  `sim kind=<simulator> p=<atoms>`: the
+generated whole simulation `Gen.Sim.<simulator>Sim` on the per-sample atoms, exactly. -/
 def handle (toks : List String) : String :=
   match toks.head? with
   | some "sim" =>
@@ -44,10 +56,11 @@ def handle (toks : List String) : String :=
     | some kind, some p, some zf, some a0, some b0 =>
       let s0 := (a0, b0)
       let out : Option (GRat × GRat) :=
-        if kind == "ck" then (pairs p).map fun w => sim ckStep w s0
-        else if kind == "hp" then (triples p).map fun w => finalPhase zf (sim hpStep w s0)
-        else if kind == "bs" then (triples p).map fun w => finalPhase zf (sim bsStep w s0)
-        else if kind == "ptx" then (pairs p).map fun w => ptxOut (sim ptxStep w s0)
+        if kind == "abrm" then (ckAtoms p).map fun w => abrmSim w s0
+        else if kind == "abrm_nd" then (ckAtoms p).map fun w => abrmNdSim w s0
+        else if kind == "abrm_hp" then (hpAtoms p).map fun w => abrmHpSim w zf s0
+        else if kind == "blochsim" then (hpAtoms p).map fun w => blochsimSim w zf s0
+        else if kind == "abrm_ptx" then (ptxAtoms p).map fun w => abrmPtxSim w s0
         else if kind == "compose" then (pairs p).bind fun w => match w with
           | [s1, s2] => some (compose s2 s1)
           | _ => none
